@@ -108,6 +108,17 @@ def absorb_kernel_helpers(F, is_kernel_candidate, max_depth=3, max_blocks=400):
         f = F.fns.get(q)
         return f is not None and f.get('vis') != 'Public' and not f.get('reach')
     absorbed = set()
+    # guard accessors: private straight-line functions that return a borrow / lock guard (`fn adj(&self) -> RwLockReadGuard<..>`)
+    # are the acquisition they wrap; they are spliced into every caller so that the guard rules see the acquisition itself
+    from .guards import GUARD_SH, GUARD_EX, ACQ
+    for q, b in bodies.items():
+        if b['kind'] == 'Closure' or b['impl_trait'] or not private(q) or q in callers.get(q, ()):
+            continue
+        rt = F.types[b['locals'][0]]
+        if rt['k'] == 'adt' and (GUARD_SH.match(rt['p']) or GUARD_EX.match(rt['p'])) and \
+                not any(bb['term']['k'] == 'switch' for bb in b['blocks'] if not bb['cleanup']) and \
+                sum(1 for bi, t in calls_in(b) if t['callee'] in ACQ) == 1 and len([1 for bi, t in calls_in(b)]) <= 6:
+            absorbed.add(q)
     changed = True
     while changed:
         changed = False
@@ -131,7 +142,7 @@ def absorb_kernel_helpers(F, is_kernel_candidate, max_depth=3, max_blocks=400):
         return absorbed, {}
     new = {}
     for q, b in bodies.items():
-        if q in absorbed or b['kind'] == 'Closure':
+        if q in absorbed:
             continue
         if not any(t.get('res') in absorbed for bi, t in calls_in(b, lambda t: t.get('local'))):
             continue
